@@ -207,3 +207,150 @@ def compare(a, b):
     if e > worst:
       worst, leaf = e, k
   return worst, leaf
+
+
+# --------------------------------------------------------------------------
+# rounding error of numpy.linalg.inv under a badly scaled similarity (a-posteriori bound)
+
+EPS = 2.3e-16
+
+
+def inverse_bound(s, st, out, eta):
+  """Per-leaf bound of the rounding error that `numpy.linalg.inv` contributes to
+  `implicit_inverse(st, eta)` under the scale of `s`, relative to the largest entry of the leaf of `out`.
+
+  The matrices are those the code inverts (`_get_implicit_term_matrix`); with X = inv(M) as computed,
+  X - M^-1 = (X M - I) M^-1 = M^-1 (M X - I), so |(X - M^-1) x| <= min(|XM - I| |X| |x|, |X| |MX - I| |x|) up to
+  the rounding of the residual itself (4 N eps |X||M|) — a bound measured on the actual matrices, valid for
+  every conditioning.  LU with partial pivoting is not invariant under the diagonal similarity
+  S M S^-1 that a change of units is, so this error depends on the scale although the exact inverse does not.
+  """
+  env = s.env
+  m = np.asarray(env.pe._get_implicit_term_matrix(eta, s.coords, s.tref, s.specs.kappa, s.specs.R))
+  n = len(s.tref)
+  N = 2 * n + 1
+  amax = lambda a: np.abs(np.asarray(a)).max(axis=-2)          # max over m: [..., L]
+  x = np.concatenate([amax(st.divergence), amax(st.temperature_variation), amax(st.log_surface_pressure)], axis=0)
+  bound = np.zeros_like(x)
+  for l in range(m.shape[0]):
+    mi = np.linalg.inv(m[l])
+    am, ai = np.abs(m[l]), np.abs(mi)
+    left = np.abs(mi @ m[l] - np.eye(N)) + 4 * N * EPS * (ai @ am)
+    right = np.abs(m[l] @ mi - np.eye(N)) + 4 * N * EPS * (am @ ai)
+    b1 = left @ (ai @ x[:, l])
+    b2 = ai @ (right @ x[:, l])
+    bound[:, l] = np.minimum(b1, b2) + 4 * N * EPS * (ai @ x[:, l])
+  ref = lambda a: max(np.abs(np.asarray(a)).max(), 1e-300)
+  lp = np.asarray(out.log_surface_pressure)
+  lv = lp.copy()
+  lv[..., 0, 0] = 0
+  return {'divergence': bound[:n].max() / ref(out.divergence),
+          'temperature_variation': bound[n:2 * n].max() / ref(out.temperature_variation),
+          'log_surface_pressure.mean': bound[2 * n, 0] / ref(lp[..., 0, 0]),
+          'log_surface_pressure.var': bound[2 * n, 1:].max(initial=0.0) / ref(lv)}
+
+
+class Recorder:
+  """Wraps an ImplicitExplicitODE and records the step sizes passed to implicit_inverse."""
+
+  def __init__(self, env, eq):
+    self.eq, self.etas = eq, []
+    base = env.ti.ImplicitExplicitODE
+    rec = self
+
+    class _R(base):
+      def explicit_terms(self, state):
+        return eq.explicit_terms(state)
+
+      def implicit_terms(self, state):
+        return eq.implicit_terms(state)
+
+      def implicit_inverse(self, state, step_size):
+        rec.etas.append(float(step_size))
+        return eq.implicit_inverse(state, step_size)
+
+    self.ode = _R()
+
+
+INTEGRATORS = ('backward_forward_euler', 'crank_nicolson_rk2', 'crank_nicolson_rk3', 'crank_nicolson_rk4',
+               'imex_rk_sil3')
+
+
+# --------------------------------------------------------------------------
+# shallow water
+
+
+def sw_problem(rng, M, layers, orography=True):
+  L = M + 1
+  shape = (2 * M - 1, L)
+  red = (1 + np.arange(L)) ** 1.5
+
+  def spec(amp, zero_mean=False):
+    x = rng.standard_normal((layers,) + shape) * amp / red
+    if zero_mean:
+      x[:, 0, 0] = 0
+    return x
+
+  dens = 997. * np.cumprod(np.concatenate([[1.0], 1 + rng.uniform(0.005, 0.05, layers - 1)]))
+  g = 9.80616 * float(rng.uniform(0.5, 2))
+  return dict(M=M, layers=layers,
+              const=dict(radius=6.37122e6 * float(rng.uniform(0.5, 2)), omega=7.292e-5 * float(rng.uniform(0.5, 2)),
+                         g=g, densities=dens.tolist()),
+              refpot=(g * rng.uniform(2e3, 8e3, layers)).tolist(),
+              orography=(rng.standard_normal(shape) / red * g * 200. if orography else None),
+              vorticity=spec(2e-5, True), divergence=spec(4e-6, True), potential=spec(g * 50.),
+              dt=float(rng.choice([300., 600., 1200.])))
+
+
+class SWSetup:
+
+  def __init__(self, env, p, sc):
+    from dinosaur import layer_coordinates
+    self.env, self.p, self.sc = env, p, sc
+    c, u = p['const'], env.units
+    self.specs = env.sw.ShallowWaterSpecs.from_si(
+        densities=np.asarray(c['densities']) * u.kg / u.m ** 3, radius_si=c['radius'] * u.m,
+        angular_velocity_si=c['omega'] / u.s, gravity_acceleration_si=c['g'] * u.m / u.s ** 2, scale=sc)
+    self.grid = env.grid(p['M'], self.specs.radius)
+    self.coords = env.cs.CoordinateSystem(self.grid, layer_coordinates.LayerCoordinates(p['layers']))
+    nd = self.specs.nondimensionalize
+    self.mask = mask_of(self.grid)
+    self.refpot = np.asarray(nd(env.q(p['refpot'], 'm**2/s**2')))
+    self.oro = None if p['orography'] is None else env.jnp.asarray(
+        np.asarray(nd(env.q(p['orography'], 'm**2/s**2'))) * self.mask)
+    self.dt = float(nd(p['dt'] * u.s))
+    self.eq = env.sw.ShallowWaterEquations(self.coords, self.specs, self.oro, self.refpot)
+
+  def state(self):
+    env, p, nd, m = self.env, self.p, self.specs.nondimensionalize, self.mask
+    return env.sw.State(vorticity=env.jnp.asarray(nd(env.q(p['vorticity'], '1/s')) * m),
+                        divergence=env.jnp.asarray(nd(env.q(p['divergence'], '1/s')) * m),
+                        potential=env.jnp.asarray(nd(env.q(p['potential'], 'm**2/s**2')) * m))
+
+  def to_si(self, x, tendency):
+    env, dim = self.env, self.specs.dimensionalize
+    per_s = '/s' if tendency else ''
+    return dict(vorticity=np.asarray(dim(np.asarray(x.vorticity), env.units('1/s' + per_s)).magnitude),
+                divergence=np.asarray(dim(np.asarray(x.divergence), env.units('1/s' + per_s)).magnitude),
+                potential=np.asarray(dim(np.asarray(x.potential), env.units('m**2/s**2' + per_s)).magnitude))
+
+
+# --------------------------------------------------------------------------
+# Held-Suarez
+
+
+def hs_params(rng, default=False):
+  """SI parameters of HeldSuarezForcing (the defaults of the paper, or within a factor ~2 of them)."""
+  f = (lambda lo, hi: 1.0) if default else (lambda lo, hi: float(rng.uniform(lo, hi)))
+  return dict(p0=1e5 * f(0.9, 1.1), sigma_b=float(0.7 * f(0.8, 1.1)), kf_day=1.0 * f(0.5, 2), ka_day=40. * f(0.5, 2),
+              ks_day=4. * f(0.5, 2), minT=200. * f(0.9, 1.1), maxT=315. * f(0.95, 1.05), dTy=60. * f(0.5, 1.5),
+              dThz=10. * f(0.5, 1.5))
+
+
+def hs_forcing(env, s, hp):
+  u = env.units
+  return env.hs.HeldSuarezForcing(
+      coords=s.coords, physics_specs=s.specs, reference_temperature=s.tref, p0=hp['p0'] * u.pascal,
+      sigma_b=hp['sigma_b'], kf=1 / (hp['kf_day'] * u.day), ka=1 / (hp['ka_day'] * u.day),
+      ks=1 / (hp['ks_day'] * u.day), minT=hp['minT'] * u.degK, maxT=hp['maxT'] * u.degK, dTy=hp['dTy'] * u.degK,
+      dThz=hp['dThz'] * u.degK)
